@@ -573,6 +573,10 @@ func (e *vfE7Env) run(c vfE7Case) (status int, reqs []string) {
 	if c.query != "" {
 		op += " xq=" + vfE7Hex(c.query)
 	}
+	if c.method != "GET" && !isConfig && len(c.body) <= 512 {
+		// the literal request body, for the oracle's own reading of "well-formed request" (ignored by the model)
+		op += " xbody=" + vfE7Hex(c.body)
+	}
 	if isConfig {
 		// the literal inputs of the CIDR gate, for the independent check of the `innet` fact (ignored by the model)
 		op += fmt.Sprintf(" xcidr=%s xremote=%s", vfE7Hex(c.cidr), vfE7Hex(c.remoteOr()))
